@@ -41,6 +41,9 @@ type JField struct {
 	Type        string   `json:"type"`
 	Name        string   `json:"name"`
 	Init        string   `json:"init,omitempty"`
+	// After > 0: the field is declared after the After-th method or constructor (singleton layout:
+	// `static final R INSTANCE = new R(); private R() {} private final Map m = new HashMap();`)
+	After int `json:"after,omitempty"`
 }
 
 type JMethod struct {
@@ -122,7 +125,7 @@ func (f *JFile) Render() {
 		}
 	}
 	add(head + " {")
-	for _, fl := range f.Fields {
+	addField := func(fl JField) {
 		for _, a := range fl.Annotations {
 			add("    " + a)
 		}
@@ -135,6 +138,11 @@ func (f *JFile) Render() {
 			s += " = " + fl.Init
 		}
 		add(s + ";")
+	}
+	for _, fl := range f.Fields {
+		if fl.After == 0 || len(f.Methods) == 0 {
+			addField(fl)
+		}
 	}
 	if len(f.Fields) > 0 {
 		add("")
@@ -172,6 +180,12 @@ func (f *JFile) Render() {
 				add("        " + l)
 			}
 			add("    }")
+		}
+		for _, fl := range f.Fields {
+			if fl.After == i+1 || (fl.After > len(f.Methods) && i == len(f.Methods)-1) {
+				add("")
+				addField(fl)
+			}
 		}
 		if i != len(f.Methods)-1 {
 			add("")
@@ -517,6 +531,10 @@ func (g *gctx) genFile(fi int) *JFile {
 	fieldTypes := map[string]string{}
 	if f.Kind == "class" {
 		nf := t.Int(0, 3)
+		interleaved := t.Bool(1, 3) // fields with initialisers between the constructors and methods
+		if interleaved && nf < 2 {
+			nf = 2 + t.Pick(2)
+		}
 		for i := 0; i < nf; i++ {
 			typ, imp := g.typeRef(fi)
 			name := g.pick(fieldNames)
@@ -537,10 +555,23 @@ func (g *gctx) genFile(fi int) *JFile {
 					fl.Type = typ + "<" + inner + ">"
 				}
 			}
-			if t.Bool(1, 5) && !strings.Contains(fl.Type, "<") && strings.ToUpper(fl.Type[:1]) == fl.Type[:1] && fl.Type != "String" {
+			initOdds := 5
+			if interleaved {
+				initOdds = 2
+			}
+			if t.Bool(1, initOdds) && !strings.Contains(fl.Type, "<") && strings.ToUpper(fl.Type[:1]) == fl.Type[:1] && fl.Type != "String" {
 				fl.Init = "new " + fl.Type + "()" // an initialiser: a creation outside any method
-			} else if t.Bool(1, 8) {
+			} else if t.Bool(1, initOdds+3) {
 				fl.Init = g.pick(classPool) + "." + g.pick(methodNames) + "()" // a call outside any method
+			}
+			if interleaved {
+				// the singleton layout: an initialised field, a constructor or method, more initialised fields
+				if fl.Init == "" {
+					fl.Init = g.pick(classPool) + "." + g.pick(methodNames) + "()"
+				}
+				if i > 0 {
+					fl.After = 1 + t.Pick(2)
+				}
 			}
 			fieldTypes[name] = fl.Type
 			f.Fields = append(f.Fields, fl)
